@@ -371,6 +371,41 @@ def unit_atheris(a):
     return stats
 
 
+# ------------------------------------------------------------------ other interpreter modes
+MODE_SCRIPT = r"""
+import sys
+sys.path.insert(0, sys.argv[1]); sys.path.insert(0, sys.argv[2])
+from vlib import noisy
+from checks import c01
+from checks.c15 import POOL
+n = 0
+for name, text in list(noisy.corpus_texts()) + sorted(POOL.items()):
+    c01.pipeline(text, "en")
+    n += 1
+print("ok", n)
+"""
+
+
+def check_mode(case, stats):
+    """the totality oracle over corpus + pool in an interpreter with assertions stripped / with a non-UTF-8 locale"""
+    stats.case(("mode", case["name"]), True, sample=case)
+    env = dict(os.environ, PYTHONDONTWRITEBYTECODE="1", **case.get("env", {}))
+    plain = subprocess.run([sys.executable, "-X", "utf8", "-c", MODE_SCRIPT, os.path.join(REPO, "python"), VERIF], capture_output=True, text=True, timeout=600, cwd=os.getcwd(),
+                           env=dict(os.environ, PYTHONDONTWRITEBYTECODE="1"))
+    if plain.returncode != 0:
+        raise HarnessError("mode script fails in a plain interpreter: " + plain.stderr[-600:])
+    r = subprocess.run([sys.executable] + case.get("flags", []) + ["-c", MODE_SCRIPT, os.path.join(REPO, "python"), VERIF], capture_output=True, text=True, timeout=600, cwd=os.getcwd(), env=env)
+    if r.returncode != 0 or r.stdout.strip() != plain.stdout.strip():
+        raise Violation(case, "the pipeline is total in a plain interpreter but not in one started with %r %r: %s" % (case.get("flags"), case.get("env"), (r.stderr or r.stdout)[-600:]))
+
+
+def unit_modes(a):
+    stats = Stats()
+    sweep(stats, [{"sub": "mode", "name": "optimised", "flags": ["-O"]}, {"sub": "mode", "name": "optimised-2", "flags": ["-OO"]},
+                  {"sub": "mode", "name": "c-locale", "env": {"LC_ALL": "C", "LANG": "C", "PYTHONUTF8": "0", "PYTHONCOERCECLOCALE": "0", "PYTHONIOENCODING": "utf-8"}}], check_mode, stop_after=3)
+    return stats
+
+
 # ------------------------------------------------------------------ known finding F1
 def demonstrate_f1():
     """TokenScanner(str) opens the source text as a file when it names an existing path"""
@@ -384,7 +419,7 @@ def demonstrate_f1():
 
 
 def replay(case, stats):
-    return {"text": check_text, "scaling": check_scaling, "history": check_history}[case["sub"]](case, stats)
+    return {"text": check_text, "scaling": check_scaling, "history": check_history, "mode": check_mode}[case["sub"]](case, stats)
 
 
 def run(ctx):
@@ -394,6 +429,7 @@ def run(ctx):
         if f.get("property") == "C01" and f.get("status") == "known" and f.get("id") == "F1" and demonstrate_f1():
             ctx.known(f["line"])
     ctx.units("corpus", unit_corpus, [{}])
+    ctx.units("interpreter-modes", unit_modes, [{}])
     from . import magnitude
     magnitude.run_big(ctx, "c01", "check_text", "text")
     ctx.units("scaling-families", unit_scaling, [{"bases": [20, 125] if q else [20, 125, 500]}])
